@@ -32,12 +32,23 @@ Do(ev) ==
     [] ev.e = "Kill" -> Kill(ev.a[1]) /\ ev.r = res'
     [] OTHER -> FALSE
 
+(* A crowd of n fibres (n far beyond Fibres) driven natively; what Fibre's rules imply for the tallies:                  *)
+(* A - n fibres made runnable, four of them a second time: n dispatches, none twice, then nothing left to run;           *)
+(* B - everybody asleep: killing the last sleeper succeeds once; a sleeper run by hand is entered once more;            *)
+(* C - everybody due: the n-1 that were not killed wake exactly once each, in due order; the killed one never runs.     *)
+CrowdOK(ev) ==
+  /\ ev.a_total = ev.n /\ ev.a_max = 1 /\ ev.a_extra = 0
+  /\ ev.kill = <<1, 0>> /\ ev.b_entries = 2
+  /\ ev.c_woke = ev.n - 1 /\ ev.c_max = 1 /\ ev.c_inorder = 1
+  /\ ev.killed = <<1, 0>> /\ ev.left = <<0, 0, 0>>
+
 TraceInit == Init /\ ti = 1
 TraceNext ==
   /\ ti <= Len(T)
   /\ ti' = ti + 1
   /\ LET ev == T[ti] IN
      IF ev.e = "Reset" THEN ResetA
+     ELSE IF ev.e = "Crowd" THEN CrowdOK(ev) /\ ResetA
      ELSE /\ Do(ev)
           /\ ev.self = current'          \* fibre_self()
           /\ ProjOK(ev.st)
